@@ -84,6 +84,9 @@ class TemplateHandler(dict):
     """
     # Used for deferred loading
     loading = {}
+    # Guards every check-then-act sequence on the two shared tables
+    # (the loaded documents in self and the loader threads in loading).
+    _lock = threading.Lock()
 
     def browse(self, url):
         """
@@ -139,11 +142,15 @@ class TemplateHandler(dict):
         # nested (include) odML files.
         print("\nLoading file %s" % url)
 
-        if url in self:
-            doc = self[url]
-        elif url in self.loading:
-            self.loading[url].join()
-            self.loading.pop(url, None)
+        with self._lock:
+            if url in self:
+                return self[url]
+            thread = self.loading.get(url)
+
+        if thread is not None:
+            thread.join()
+            with self._lock:
+                self.loading.pop(url, None)
             doc = self.load(url)
         else:
             doc = self._load(url)
@@ -172,7 +179,12 @@ class TemplateHandler(dict):
             print("Failed to load '%s' due to parser errors:\n %s" % (url, exc))
             return None
 
-        self[url] = doc
+        with self._lock:
+            if url in self:
+                # A concurrent load of the same file has been faster; keep
+                # its result so that all callers share one cached object.
+                return self[url]
+            self[url] = doc
         return doc
 
     def deferred_load(self, url):
@@ -181,8 +193,10 @@ class TemplateHandler(dict):
 
         :param url: location of an odML template XML file.
         """
-        if url in self or url in self.loading:
-            return
+        with self._lock:
+            if url in self or url in self.loading:
+                return
 
-        self.loading[url] = threading.Thread(target=self._load, args=(url,))
-        self.loading[url].start()
+            thread = threading.Thread(target=self._load, args=(url,))
+            self.loading[url] = thread
+            thread.start()
